@@ -27,7 +27,10 @@ RULE_ADDED = (
               'pending (any transport activity of a refused request counts as contact); characters '
               'of every string leaf exchanged for look-alikes (non-ASCII digits, NUL, lone '
               'surrogate, blanks, 0X); requests of 255..1000 blocks; request lines of 1 / 17 / 33 '
-              'MiB ')
+              'MiB '
+              ' '
+              'Round 9: every field of every other command added to each request, well-formed a'
+              's in its home command and malformed in every kind. ')
 RULE = RULE + " " + RULE_ADDED.strip()
 ASSUMPTIONS = [
     "the reference classifier (pv/oracle/docs_protocol.py) is a reading of docs/protocol.md and "
